@@ -513,11 +513,8 @@ func (wd *world) step(ws []string) string {
 		}
 		r := wd.exec(from, "contributeMpk", input)
 		if r == "ok" && d != nil {
-			key := ws[1]
-			if asID != "" {
-				key = labelOf[asID]
-			}
-			wd.dkgs[key] = d
+			// the contract records the key under the sender's id, whatever id the payload names
+			wd.dkgs[ws[1]] = d
 		}
 		return r
 	case "sos":
